@@ -6,6 +6,8 @@
 //	eval <tree> <leaf values> = <value golua computes for `return <src>` | E | P>|<source hex>
 //	mv <cap> <shape> = <number of values observed>|<context>|<form>|<source hex>
 //	mvast <shape> = <AST marking of the return list>|<form>|<source hex>
+//	badexp <tokens> = <ok | index of the token golua reports>|<source hex>|<e|c>   corrupted expressions, one token per line
+//	fstat <expected> = <observed>|<form>|<source hex>     function statements: value when called / AST
 //	short s<literal hex> = s<value hex> | E | P
 //	long  s<literal hex> = s<value hex> | E | P
 //	chunk <expect> <kind> s<source hex> = ok | E:<line> | E:? | P     expect: ok or the line the error must carry
@@ -28,6 +30,7 @@ import (
 	"github.com/arnodel/golua/parsing"
 	rt "github.com/arnodel/golua/runtime"
 	"github.com/arnodel/golua/scanner"
+	"github.com/arnodel/golua/token"
 	"verifharness/hlib"
 )
 
@@ -717,6 +720,28 @@ func literals(thorough bool) {
 			}
 		})
 	}
+	// contents that BEGIN with 0..3 line breaks, each in any of the four spellings (only the first is dropped),
+	// levels 0..2; the same openings for long comments are in the error-line leg
+	var heads []string
+	var recH func(cur string, n int)
+	recH = func(cur string, n int) {
+		heads = append(heads, cur)
+		if n == 3 {
+			return
+		}
+		for _, nl := range lineBreaks {
+			recH(cur+nl, n+1)
+		}
+	}
+	recH("", 0)
+	for _, h := range heads {
+		for lvl := 0; lvl <= 2; lvl++ {
+			eq := strings.Repeat("=", lvl)
+			for _, tail := range []string{"", "foo", "x\ny", " "} {
+				emitLit("long", "["+eq+"["+h+tail+"]"+eq+"]")
+			}
+		}
+	}
 	// random byte strings in random spellings
 	count := 10000
 	if thorough {
@@ -869,8 +894,32 @@ func spellChunk(ts []string, style int, nl string, rng *hlib.Rng) (src string, l
 }
 
 // kind names how the chunk was made (valid | stray:<tok> | del:<tok> | delend:<block keyword>)
-func emitChunk(expect, kind, src string) {
-	_, res := parseChunkSrc(src)
+func emitChunk(expect, kind, src string) { emitChunkNear(expect, kind, src, "") }
+
+// near: the text of the offending token ("<eof>" for end of input, "" = not checked); the result then
+// carries `@<hex of the token golua's message names>`
+func emitChunkNear(expect, kind, src, near string) {
+	res := "P"
+	func() {
+		defer func() { recover() }()
+		_, err := parsing.ParseChunk(scanner.New("c12", []byte(src)))
+		if err == nil {
+			res = "ok"
+			return
+		}
+		res = errResult(err)
+		var pe parsing.Error
+		if near != "" && errors.As(err, &pe) && pe.Got != nil {
+			lit := string(pe.Got.Lit)
+			if pe.Got.Type == token.EOF {
+				lit = "<eof>"
+			}
+			res += "@" + hex.EncodeToString([]byte(lit))
+		}
+	}()
+	if near != "" && res != "ok" {
+		expect += "@" + hex.EncodeToString([]byte(strings.ReplaceAll(near, "§", "")))
+	}
 	hlib.Emit("chunk", expect, kind, "s"+hex.EncodeToString([]byte(src)), "=", res)
 }
 
@@ -912,6 +961,116 @@ type errTemplate struct {
 	delEndInner []int
 	// positions i (gap before toks[i]) with no bracket open, where a stray closer / `$` is offending
 	gaps []int
+	// bracket templates: gaps and corruptions are derived from the bracket structure (bracketCases)
+	auto bool
+	// positions of closing brackets whose deletion makes toks[i+1] the first offending token
+	delClose []int
+}
+
+// bracketing constructs: table constructors, parenthesised expressions, indexing, call arguments, function
+// bodies inside them, inside blocks.  Statements start with names, so after a complete expression the
+// next statement's first token cannot continue it.
+// `!tok`: deleting tok makes the NEXT token the first offending one; `^end`: deleting it moves the error to <eof>
+var bracketTemplates = []errTemplate{
+	markedTemplate("t = { 1 !, 2 !, x != 3 !, [ k ] != 4 !; 5 !} y = 1"),
+	markedTemplate("r = f ( a !, g ( b !, 2 ) !, 3 !) z = 1"),
+	markedTemplate("v = ( a + ( b !* c ) !) w = t [ i ] [ j + 1 !] u = 1"),
+	markedTemplate("h = function ( a !, b ) q = a ^end k = { function ( ) q ( ) !end , 2 } m = 1"),
+	markedTemplate("do x = { 1 !, 2 !} end while a do y = ( 1 !) end for i = 1 , 2 do z = f ( i !) end repeat w = t [ 1 !] until w p = 1"),
+	markedTemplate("o : m ( { a = { b = { 1 !, { } } } } !, ( ( 2 ) ) ) [ 1 ] . x = 1 n = 1"),
+	markedTemplate("local s = { f ( 1 ) !, t [ 2 ] , ( 3 ) , { 4 } !, function ( ... ) return ... end !} e = 1"),
+}
+
+func markedTemplate(src string) errTemplate {
+	t := errTemplate{auto: true}
+	for i, tk := range strings.Fields(src) {
+		switch {
+		case len(tk) > 1 && tk[0] == '!':
+			t.del = append(t.del, i)
+			tk = tk[1:]
+		case len(tk) > 1 && tk[0] == '^':
+			t.delEnd = append(t.delEnd, i)
+			tk = tk[1:]
+		}
+		t.toks = append(t.toks, tk)
+	}
+	return t
+}
+
+var closers = []string{")", "]", "}"}
+var openerOf = map[string]string{")": "(", "]": "[", "}": "{"}
+
+// (gap or token index, inserted/replacing token, kind) for a bracket template: at every gap an illegal
+// character; directly inside a bracket a block keyword or a closing bracket of the wrong kind; outside all
+// brackets any closing bracket; every closing bracket replaced by each other kind
+type bcase struct {
+	pos     int
+	tok     string
+	replace bool
+	kind    string
+}
+
+func bracketCases(toks []string) []bcase {
+	var out []bcase
+	var stack []string
+	fnParen := map[int]bool{} // stack depth at which the `(` opening a parameter list sits
+	pendingFn := false
+	for g := 0; g <= len(toks); g++ {
+		// corruptions in the gap before toks[g]
+		out = append(out, bcase{g, "$", false, "stray:$"})
+		inBracket := false
+		for _, f := range stack {
+			if f != "F" {
+				inBracket = true
+			}
+		}
+		if len(stack) > 0 && stack[len(stack)-1] != "F" {
+			top := stack[len(stack)-1]
+			for _, kw := range []string{"end", "until", "then", "do", "else", "elseif"} {
+				out = append(out, bcase{g, kw, false, "inbracket:" + kw})
+			}
+			for _, c := range closers {
+				if openerOf[c] != top {
+					out = append(out, bcase{g, c, false, "mismatch:" + top + c})
+				}
+			}
+		}
+		if !inBracket {
+			for _, c := range closers {
+				out = append(out, bcase{g, c, false, "stray:" + c})
+			}
+		}
+		if g == len(toks) {
+			break
+		}
+		t := toks[g]
+		switch t {
+		case "function":
+			pendingFn = true
+		case "(", "[", "{":
+			if t == "(" && pendingFn {
+				fnParen[len(stack)] = true
+				pendingFn = false
+			}
+			stack = append(stack, t)
+		case ")", "]", "}":
+			for _, c := range closers {
+				if c != t {
+					out = append(out, bcase{g, c, true, "wrongcloser:" + t + c})
+				}
+			}
+			stack = stack[:len(stack)-1]
+			if t == ")" && fnParen[len(stack)] {
+				delete(fnParen, len(stack))
+				stack = append(stack, "F")
+			}
+		case "end":
+			if len(stack) > 0 && stack[len(stack)-1] == "F" {
+				stack = stack[:len(stack)-1]
+			}
+		}
+	}
+	return out
 }
 
 var errTemplates = []errTemplate{
@@ -978,26 +1137,79 @@ func errorLines(thorough bool) {
 					}
 					m := append(append(append([]string{}, t.toks[:g]...), bad), t.toks[g:]...)
 					src, lines := spellChunk(m, s.style, s.nl, rng)
-					emitChunk(fmt.Sprint(lines[g]), "stray:"+bad, src)
+					emitChunkNear(fmt.Sprint(lines[g]), "stray:"+bad, src, bad)
 				}
 			}
 			for _, d := range t.del {
 				m := append(append([]string{}, t.toks[:d]...), t.toks[d+1:]...)
 				src, lines := spellChunk(m, s.style, s.nl, rng)
-				emitChunk(fmt.Sprint(lines[d]), "del:"+t.toks[d], src)
+				emitChunkNear(fmt.Sprint(lines[d]), "del:"+t.toks[d], src, t.toks[d+1])
 			}
 			for _, d := range t.delEnd {
 				m := append(append([]string{}, t.toks[:d]...), t.toks[d+1:]...)
 				src, lines := spellChunk(m, s.style, s.nl, rng)
 				kind := "delend:" + blockOf(t.toks, d)
-				emitChunk(fmt.Sprint(lines[len(m)]), kind, src) // <eof> is on the last line
+				emitChunkNear(fmt.Sprint(lines[len(m)]), kind, src, "<eof>") // <eof> is on the last line
 				emitChunk(fmt.Sprint(lines[len(m)]+2), kind, src+s.nl+s.nl)
 				emitChunk(fmt.Sprint(lines[len(m)]+1), kind, src+" --c"+s.nl) // … after a final comment line
 			}
 			for _, d := range t.delEndInner {
 				m := append(append([]string{}, t.toks[:d]...), t.toks[d+1:]...)
 				src, lines := spellChunk(m, s.style, s.nl, rng)
-				emitChunk(fmt.Sprint(lines[d]), "delend:"+blockOf(t.toks, d), src) // toks[d+1] is `until`
+				emitChunkNear(fmt.Sprint(lines[d]), "delend:"+blockOf(t.toks, d), src, t.toks[d+1]) // toks[d+1] is `until`
+			}
+		}
+	}
+	// `...` is only allowed directly inside a vararg function (manual §3.4.11); `!...` marks the offending one
+	for _, src := range []string{
+		"local function g ( a ) return !... end",
+		"function t . f ( ) local x = !... end",
+		"function t . a : m ( a , b ) return { !... } end",
+		"x = function ( ... ) return function ( ) return f ( !... ) end end",
+		"local function g ( ... ) local function h ( a ) return a , !... end return h ( ... ) end",
+	} {
+		toks := strings.Fields(src)
+		at := -1
+		for i, tk := range toks {
+			if tk == "!..." {
+				toks[i] = "..."
+				at = i
+			}
+		}
+		for _, s := range spellings {
+			text, lines := spellChunk(toks, s.style, s.nl, rng)
+			emitChunkNear(fmt.Sprint(lines[at]), "varargscope", text, "...")
+		}
+	}
+	// bracketing constructs: the opener is on an earlier line than the offending token in every spelling
+	// that breaks lines; the reported line must be the offending token's
+	for _, t := range bracketTemplates {
+		src, _ := spellChunk(t.toks, 0, "\n", rng)
+		emitChunk("ok", "valid", src)
+		cases := bracketCases(t.toks)
+		for _, s := range spellings {
+			for _, c := range cases {
+				if !thorough && !rng.Chance(22) {
+					continue
+				}
+				var m []string
+				if c.replace {
+					m = append(append(append([]string{}, t.toks[:c.pos]...), c.tok), t.toks[c.pos+1:]...)
+				} else {
+					m = append(append(append([]string{}, t.toks[:c.pos]...), c.tok), t.toks[c.pos:]...)
+				}
+				src, lines := spellChunk(m, s.style, s.nl, rng)
+				emitChunkNear(fmt.Sprint(lines[c.pos]), c.kind, src, c.tok)
+			}
+			for _, d := range t.del {
+				m := append(append([]string{}, t.toks[:d]...), t.toks[d+1:]...)
+				src, lines := spellChunk(m, s.style, s.nl, rng)
+				emitChunkNear(fmt.Sprint(lines[d]), "del:"+t.toks[d], src, t.toks[d+1])
+			}
+			for _, d := range t.delEnd {
+				m := append(append([]string{}, t.toks[:d]...), t.toks[d+1:]...)
+				src, lines := spellChunk(m, s.style, s.nl, rng)
+				emitChunkNear(fmt.Sprint(lines[len(m)]), "delend:function", src, "<eof>")
 			}
 		}
 	}
@@ -1145,6 +1357,282 @@ func nameBack() map[string]string {
 	return m
 }
 
+// ---------------------------------------------------------------------------
+// corrupted expressions: at which token does golua report the error?  (oracle: Spec.Grammar.firstBad)
+
+func errIndex(src string, viaChunk bool) (res string) {
+	defer func() {
+		if p := recover(); p != nil {
+			res = "P"
+		}
+	}()
+	var err error
+	off := 1
+	if viaChunk {
+		_, err = parsing.ParseChunk(scanner.New("c12", []byte("return\n"+src)))
+		off = 2
+	} else {
+		_, err = parsing.ParseExp(scanner.New("c12", []byte(src)))
+	}
+	if err == nil {
+		return "ok"
+	}
+	var pe parsing.Error
+	if errors.As(err, &pe) && pe.Got != nil {
+		return fmt.Sprint(pe.Got.Line - off)
+	}
+	return "E:?"
+}
+
+func badExps(thorough bool) {
+	rng := hlib.NewRng(hlib.Seed() ^ 0xbad)
+	n := 6000
+	if thorough {
+		n = 120000
+	}
+	var alphabet []tok
+	for i := 0; i < 8; i++ {
+		alphabet = append(alphabet, tok{byte('a' + i), string(rune('a' + i))})
+	}
+	for _, o := range binops {
+		alphabet = append(alphabet, tok{o.code, o.lua})
+	}
+	alphabet = append(alphabet, tok{'2', "not"}, tok{'3', "#"}, tok{'(', "("}, tok{')', ")"}, tok{'(', "("}, tok{')', ")"})
+	var gen func(d int) *node
+	gen = func(d int) *node {
+		if d == 0 || rng.Chance(20) {
+			return atom(rng.Below(8))
+		}
+		if rng.Chance(25) {
+			return un(rng.Below(len(unops)), gen(d-1))
+		}
+		return bin(rng.Below(len(binops)), gen(d-1), gen(d-1))
+	}
+	names := nameLeaves()
+	for i := 0; i < n; i++ {
+		t := gen(1 + rng.Below(4))
+		setParens(t, func(int) int {
+			if rng.Chance(25) {
+				return 1
+			}
+			return 0
+		}, 0)
+		var ts []tok
+		t.render(0, &ts, names)
+		// one or two corruptions
+		for k := 1 + rng.Below(2); k > 0 && len(ts) > 0; k-- {
+			pos := rng.Below(len(ts) + 1)
+			c := alphabet[rng.Below(len(alphabet))]
+			switch rng.Below(3) {
+			case 0:
+				ts = append(ts[:pos:pos], append([]tok{c}, ts[pos:]...)...)
+			case 1:
+				if pos == len(ts) {
+					pos--
+				}
+				ts = append(ts[:pos:pos], append([]tok{c}, ts[pos+1:]...)...)
+			default:
+				if pos == len(ts) {
+					pos--
+				}
+				ts = append(ts[:pos:pos], ts[pos+1:]...)
+			}
+		}
+		if len(ts) == 0 {
+			continue
+		}
+		// `name (` and `) (` are calls, which this token language does not have
+		callLike := false
+		for j := 1; j < len(ts); j++ {
+			if ts[j].code == '(' && (ts[j-1].code == ')' || ts[j-1].code >= 'a' && ts[j-1].code <= 'h') {
+				callLike = true
+			}
+		}
+		if callLike {
+			continue
+		}
+		nl := lineBreaks[rng.Below(4)]
+		var src, code strings.Builder
+		for _, t := range ts {
+			src.WriteString(t.lua)
+			src.WriteString(nl)
+			code.WriteByte(t.code)
+		}
+		viaChunk := rng.Bool()
+		mode := "e"
+		if viaChunk {
+			mode = "c"
+		}
+		hlib.Emit("badexp", code.String(), "=", errIndex(src.String(), viaChunk)+"|"+hex.EncodeToString([]byte(src.String()))+"|"+mode)
+	}
+}
+
+// ---------------------------------------------------------------------------
+// function STATEMENTS: `function t.a.b:m(params) body end` is `t.a.b.m = function(self, params) body end`
+// (manual §3.4.11), whatever the name chain and the parameter list.  Each form is parsed (AST of the
+// desugared assignment) and run inside a vararg function, so that a wrong binding of `...` is visible.
+
+type fparams struct {
+	fixed  int
+	vararg bool
+}
+
+func (p fparams) toks() []string {
+	var out []string
+	for i := 1; i <= p.fixed; i++ {
+		if i > 1 {
+			out = append(out, ",")
+		}
+		out = append(out, fmt.Sprintf("p%d", i))
+	}
+	if p.vararg {
+		if p.fixed > 0 {
+			out = append(out, ",")
+		}
+		out = append(out, "...")
+	}
+	return out
+}
+
+func funcStats(thorough bool) {
+	rng := hlib.NewRng(hlib.Seed() ^ 0xf57)
+	plists := []fparams{{0, false}, {1, false}, {2, false}, {0, true}, {1, true}, {2, true}}
+	chains := [][]string{{}, {"a"}, {"a", "b"}, {"a", "b", "c"}}
+	type form struct {
+		kind  string // stat | local | expr
+		chain []string
+		colon bool
+	}
+	var forms []form
+	for _, ch := range chains {
+		forms = append(forms, form{"stat", ch, false}, form{"stat", ch, true}, form{"expr", ch, false})
+	}
+	forms = append(forms, form{"local", nil, false}, form{"global", nil, false})
+	for _, f := range forms {
+		for _, pl := range plists {
+			// receiver expression t.a.b…, and the head of the definition
+			recv := []string{"t"}
+			for _, c := range f.chain {
+				recv = append(recv, ".", c)
+			}
+			var head, call []string
+			switch f.kind {
+			case "stat":
+				head = append([]string{"function"}, recv...)
+				if f.colon {
+					head = append(head, ":", "m")
+					call = append(append([]string{}, recv...), ":", "m")
+				} else {
+					head = append(head, ".", "f")
+					call = append(append([]string{}, recv...), ".", "f")
+				}
+			case "expr":
+				head = append(append([]string{}, recv...), ".", "f", "=", "function")
+				call = append(append([]string{}, recv...), ".", "f")
+			case "local":
+				head = []string{"local", "function", "lf"}
+				call = []string{"lf"}
+			default:
+				head = []string{"function", "gf"}
+				call = []string{"gf"}
+			}
+			// observation: self ok ×1000, p1 ok ×100, p2 ok ×10, number of extra arguments
+			obs := []string{"return", "0"}
+			if f.colon {
+				obs = append(obs, "+", "(", "self", "==")
+				obs = append(obs, recv...)
+				obs = append(obs, "and", "1000", "or", "0", ")")
+			}
+			if pl.fixed >= 1 {
+				obs = append(obs, "+", "(", "p1", "==", "11", "and", "100", "or", "0", ")")
+			}
+			if pl.fixed >= 2 {
+				obs = append(obs, "+", "(", "p2", "==", "22", "and", "10", "or", "0", ")")
+			}
+			if pl.vararg {
+				obs = append(obs, "+", "select", "(", "'#'", ",", "...", ")")
+			}
+			def := append(append([]string{}, head...), "(")
+			def = append(def, pl.toks()...)
+			def = append(def, ")")
+			def = append(def, obs...)
+			def = append(def, "end")
+			prog := strings.Fields("local function outer ( ... ) local t = { a = { b = { c = { } } } }")
+			prog = append(prog, def...)
+			prog = append(prog, "return")
+			prog = append(prog, call...)
+			prog = append(prog, strings.Fields("( 11 , 22 , 33 , 44 , 55 ) end return outer ( 'X' , 'Y' )")...)
+			want := 0
+			if f.colon {
+				want += 1000
+			}
+			if pl.fixed >= 1 {
+				want += 100
+			}
+			if pl.fixed >= 2 {
+				want += 10
+			}
+			if pl.vararg {
+				want += 5 - pl.fixed
+			}
+			desc := fmt.Sprintf("%s/%d%v/%d/%v", f.kind, len(f.chain), f.colon, pl.fixed, pl.vararg)
+			styles := []int{0, 2, 3}
+			if thorough {
+				styles = []int{0, 1, 2, 3, 3, 5, 6}
+			}
+			for _, st := range styles {
+				src, _ := spellChunk(prog, st, lineBreaks[rng.Below(4)], rng)
+				hlib.Emit("fstat", fmt.Sprint(want), "=", runChunk(src)+"|"+desc+"|"+hex.EncodeToString([]byte(src)))
+			}
+			// AST of the definition alone: destination chain, parameter names, HasDots
+			defSrc, _ := spellChunk(def, 0, "\n", rng)
+			wantParams := []string{}
+			if f.colon {
+				wantParams = append(wantParams, "self")
+			}
+			for i := 1; i <= pl.fixed; i++ {
+				wantParams = append(wantParams, fmt.Sprintf("p%d", i))
+			}
+			wantAst := fmt.Sprintf("%s(%s;%v)", map[string]string{"stat": "assign", "expr": "assign", "global": "assign", "local": "localfn"}[f.kind],
+				strings.Join(wantParams, ","), pl.vararg)
+			hlib.Emit("fstat", wantAst, "=", fstatAst(defSrc)+"|"+desc+"|"+hex.EncodeToString([]byte(defSrc)))
+		}
+	}
+}
+
+func fstatAst(src string) (res string) {
+	defer func() {
+		if p := recover(); p != nil {
+			res = "P"
+		}
+	}()
+	b, r := parseChunkSrc(src)
+	if r != "ok" {
+		return r
+	}
+	if len(b.Stats) != 1 {
+		return "?shape"
+	}
+	fn := func(f ast.Function) string {
+		var ps []string
+		for _, p := range f.Params {
+			ps = append(ps, p.Val)
+		}
+		return fmt.Sprintf("(%s;%v)", strings.Join(ps, ","), f.HasDots)
+	}
+	switch st := b.Stats[0].(type) {
+	case ast.AssignStat:
+		if len(st.Src) == 1 {
+			if f, ok := st.Src[0].(ast.Function); ok {
+				return "assign" + fn(f)
+			}
+		}
+	case ast.LocalFunctionStat:
+		return "localfn" + fn(st.Function)
+	}
+	return fmt.Sprintf("?%T", b.Stats[0])
+}
+
 func main() {
 	if len(os.Args) < 2 {
 		fmt.Fprintln(os.Stderr, "usage: c12 all quick|thorough | stdin")
@@ -1158,6 +1646,8 @@ func main() {
 		literals(thorough)
 		errorLines(thorough)
 		multiValues()
+		funcStats(thorough)
+		badExps(thorough)
 	case "stdin":
 		// lines: short s<hex> | long s<hex> | chunk <expect> s<hex> | expsrc s<hex> | retsrc s<hex>
 		sc := bufio.NewScanner(os.Stdin)
@@ -1178,6 +1668,10 @@ func main() {
 				emitLit(f[0], string(raw))
 			case "chunk":
 				emitChunk(f[1], f[2], string(raw))
+			case "badexpe", "badexpc":
+				hlib.Emit(f[0], arg, "=", errIndex(string(raw), f[0] == "badexpc"))
+			case "fstatast":
+				hlib.Emit("fstatast", arg, "=", fstatAst(string(raw)))
 			case "run":
 				hlib.Emit("run", arg, "=", runChunk(string(raw)))
 			case "expsrc":
